@@ -282,6 +282,21 @@ theorem deliverApply_ch {s : St} (hi : Inv s) (h : Ch s) (n : Nat) : Ch (deliver
         simp only [hq', Bool.false_eq_true, if_false]
         exact ch_direct h _ _ (direct_aq_nil hi hq').1 hsplit (Nat.le_trans hi.1.i6a hi.1.i6b)
 
+theorem deliverBuf_ch {s : St} (hi : Inv s) (h : Ch s) (m : Nat) : Ch (deliverBuf s m).1 := by
+  unfold deliverBuf
+  split
+  · exact h
+  · split
+    · exact h
+    · have hsplit : s.rest = s.rest.take (fitCount m s.rest) ++ s.rest.drop (fitCount m s.rest) :=
+        (List.take_append_drop _ s.rest).symm
+      by_cases hq : queueCond s = true
+      · simp only [hq, if_true]
+        exact ch_enqueue h _ _ _ _ hsplit rfl
+      · have hq' : queueCond s = false := by simpa using hq
+        simp only [hq', Bool.false_eq_true, if_false]
+        exact ch_direct h _ _ (direct_aq_nil hi hq').1 hsplit (Nat.le_trans hi.1.i6a hi.1.i6b)
+
 theorem deliverSkip_ch {s : St} (hi : Inv s) (h : Ch s) (n : Nat) : Ch (deliverSkip s n).1 := by
   unfold deliverSkip
   by_cases hb : badSkip s n = true
@@ -386,6 +401,8 @@ theorem step_ch {s : St} (hi : Inv s) (h : Ch s) (op : Op) : Ch (step s op).1 :=
   | tx => exact txStep_ch h
   | dApply n => exact deliverApply_ch hi h n
   | dSkip n => exact deliverSkip_ch hi h n
+  | dApplyBuf m => exact deliverBuf_ch hi h m
+  | view => exact h
   | append l =>
     simp only [step]
     split
@@ -557,7 +574,7 @@ theorem replay_finish {A : List Rec} {L : Nat} {s : St} (h : Rd A L s) (hrest : 
     simp only [hci, if_false]
     by_cases hq : s.q = true
     · have hd : delayedCommit s s.len = true := by simp [delayedCommit, hq, hdbo]
-      simp only [hd, if_true, flushQ, foldl_flush, flushed, notify]
+      simp only [hd, if_true, flushQ, foldl_flush, flushed, notify, announce]
       refine ⟨trivial, trivial, hrest, ?_, ?_, trivial, hcl, hdown⟩
       · show (if s.aq = [] then s.tx.off else s.dbo + total (flat s.aq)) = s.dbo + total (flat s.aq)
         by_cases he : s.aq = []
@@ -567,7 +584,7 @@ theorem replay_finish {A : List Rec} {L : Nat} {s : St} (h : Rd A L s) (hrest : 
     · have hqf : s.q = false := by simpa using hq
       have hd : delayedCommit s s.len = false := by simp [delayedCommit, hqf]
       have hp : parkedCommit s s.len = false := by simp [parkedCommit, hptx]
-      simp only [hd, hp, Bool.false_eq_true, if_false, notify]
+      simp only [hd, hp, Bool.false_eq_true, if_false, notify, announce]
       exact ⟨hqf, hi.1.q0 hqf, hrest, hoff, hall, trivial, hcl, hdown⟩
   obtain ⟨f1, f2, f3, f4, f5, f6, f7, f8⟩ := hfacts
   have hready : (step (commitStep s s.len) Op.ready).1 = commitStep s s.len := by
@@ -585,5 +602,156 @@ theorem allRecs_crash {s : St} (h : Ch s) (d : Nat) (hd : s.com.off ≤ d) :
   show upTo s.com.off s.done ++ flat [] ++ upTo d (above s.com.off s.done ++ flat s.aq ++ s.rest) = upTo d (s.done ++ flat s.aq ++ s.rest)
   conv => rhs; rw [← e]
   simp only [flat_nil, List.append_nil, upTo_append, h1, List.append_assoc]
+
+
+/-! ### arbitrary chunking: whatever split of the byte stream the reader hands over, nothing is lost or reordered -/
+
+/-- in a contiguous binlog the reader's bookkeeping guard holds for every number of records handed over -/
+theorem readerOK_chain {s : St} (hi : Inv0 s) (h : Ch s) (n : Nat) : readerOK s n = true := by
+  have c4 := h.c4
+  have c7 := h.c7
+  have hsplit : s.rest = s.rest.take n ++ s.rest.drop n := (List.take_append_drop n s.rest).symm
+  rw [hsplit, chain_append] at c4
+  rw [hsplit, total_append] at c7
+  have hb1 := chain_bounds _ _ c4.1
+  have hb2 := chain_bounds _ _ c4.2
+  have hrp : rp s = rpos s.dbo s.aq := rfl
+  simp only [readerOK, recsOK, restOK, Bool.and_eq_true, List.all_eq_true, decide_eq_true_eq, hrp]
+  refine ⟨⟨?_, ?_⟩, ?_⟩
+  · intro x hx; exact hb1 x hx
+  · intro x hx; exact (hb2 x hx).1
+  · omega
+
+/-- ops the binlog reader may issue while it re-reads: payloads cut anywhere, whole-record payloads, skips of service
+    records and its periodic Commit of the position reached -/
+def isDelivery : Op → Bool
+  | .dApplyBuf _ | .dApply _ | .dSkip _ | .commit _ => true
+  | _ => false
+
+theorem allRecs_move (done : List Rec) (aq : List QItem) (rest : List Rec) (n : Nat) :
+    done ++ flat (aq ++ [QItem.body (rest.take n)]) ++ rest.drop n = done ++ flat aq ++ rest := by
+  simp only [flat_append, flat_cons, flat_nil, itemRecs, List.append_nil, List.append_assoc, List.take_append_drop]
+
+theorem buf_rd {A : List Rec} {L : Nat} {s : St} (h : Rd A L s) (m : Nat) : Rd A L (step s (Op.dApplyBuf m)).1 := by
+  obtain ⟨hi, hc, hoff, hup, hall, hlen⟩ := h
+  have hinv : Inv (deliverBuf s m).1 := step_inv hi (Op.dApplyBuf m)
+  have hch : Ch (deliverBuf s m).1 := step_ch hi hc (Op.dApplyBuf m)
+  show Rd A L (deliverBuf s m).1
+  unfold deliverBuf at hinv hch ⊢
+  by_cases hb : badBuf s m = true
+  · simp only [hb, if_true]; exact ⟨hi, hc, hoff, hup, hall, hlen⟩
+  · simp only [hb] at hinv hch ⊢
+    have hr := readerOK_chain hi.1 hc (fitCount m s.rest)
+    simp only [hr, Bool.not_true, Bool.false_eq_true, if_false] at hinv hch ⊢
+    by_cases hq : queueCond s = true
+    · simp only [hq, if_true] at hinv hch ⊢
+      refine ⟨hinv, hch, hoff, hup, ?_, hlen⟩
+      rw [← hall]
+      exact allRecs_move s.done s.aq s.rest _
+    · have hq' : queueCond s = false := by simpa using hq
+      simp only [hq', Bool.false_eq_true, if_false] at hinv hch ⊢
+      have haq := (direct_aq_nil hi hq').1
+      refine ⟨hinv, hch, rfl, hup, ?_, hlen⟩
+      rw [← hall]
+      simp [allRecs, applyDirect, haq, flat_nil, List.append_assoc, List.take_append_drop]
+
+theorem apply_rd {A : List Rec} {L : Nat} {s : St} (h : Rd A L s) (n : Nat) : Rd A L (step s (Op.dApply n)).1 := by
+  obtain ⟨hi, hc, hoff, hup, hall, hlen⟩ := h
+  have hinv : Inv (deliverApply s n).1 := step_inv hi (Op.dApply n)
+  have hch : Ch (deliverApply s n).1 := step_ch hi hc (Op.dApply n)
+  show Rd A L (deliverApply s n).1
+  unfold deliverApply at hinv hch ⊢
+  by_cases hb : badApply s n = true
+  · simp only [hb, if_true]; exact ⟨hi, hc, hoff, hup, hall, hlen⟩
+  · simp only [hb] at hinv hch ⊢
+    have hr := readerOK_chain hi.1 hc n
+    simp only [hr, Bool.not_true, Bool.false_eq_true, if_false] at hinv hch ⊢
+    by_cases hq : queueCond s = true
+    · simp only [hq, if_true] at hinv hch ⊢
+      refine ⟨hinv, hch, hoff, hup, ?_, hlen⟩
+      rw [← hall]
+      exact allRecs_move s.done s.aq s.rest _
+    · have hq' : queueCond s = false := by simpa using hq
+      simp only [hq', Bool.false_eq_true, if_false] at hinv hch ⊢
+      have haq := (direct_aq_nil hi hq').1
+      refine ⟨hinv, hch, rfl, hup, ?_, hlen⟩
+      rw [← hall]
+      simp [allRecs, applyDirect, haq, flat_nil, List.append_assoc, List.take_append_drop]
+
+theorem skip_rd {A : List Rec} {L : Nat} {s : St} (h : Rd A L s) (n : Nat) : Rd A L (step s (Op.dSkip n)).1 := by
+  obtain ⟨hi, hc, hoff, hup, hall, hlen⟩ := h
+  show Rd A L (deliverSkip s n).1
+  by_cases hb : badSkip s n = true
+  · have : (deliverSkip s n).1 = s := by unfold deliverSkip; simp [hb]
+    rw [this]; exact ⟨hi, hc, hoff, hup, hall, hlen⟩
+  · have hbf : badSkip s n = false := by simpa using hb
+    cases hrest : s.rest with
+    | nil => simp [badSkip, hrest] at hbf
+    | cons r t =>
+      have hev : r.isEv = false ∧ r.ln = n := by
+        simp [badSkip, hrest] at hbf; exact ⟨hbf.1.1.1.1, hbf.1.1.1.2⟩
+      have h1 := replay_one (A := A) (L := L) ⟨hi, hc, hoff, hup, hall, hlen⟩ hrest
+      simp only [hev.1, Bool.false_eq_true, if_false, hev.2] at h1
+      exact h1.1
+
+theorem commit_rd {A : List Rec} {L : Nat} {s : St} (h : Rd A L s) (k : Nat) : Rd A L (step s (Op.commit k)).1 := by
+  obtain ⟨hi, hc, hoff, ⟨hcl, hptx, hdown⟩, hall, hlen⟩ := h
+  have hinv := step_inv hi (Op.commit k)
+  have hch := step_ch hi hc (Op.commit k)
+  simp only [step] at hinv hch ⊢
+  split
+  · exact ⟨hi, hc, hoff, ⟨hcl, hptx, hdown⟩, hall, hlen⟩
+  · rename_i hg
+    simp only [hg, Bool.false_eq_true, if_false] at hinv hch
+    refine ⟨hinv, hch, ?_, ?_, ?_, ?_⟩
+    all_goals (unfold commitStep; split)
+    · exact hoff
+    · have hp : parkedCommit s k = false := by simp [parkedCommit, hptx]
+      split
+      · simp only [flushQ, foldl_flush, flushed, notify, announce]
+        show (if s.aq = [] then s.tx.off else s.dbo + total (flat s.aq)) = s.dbo + total (flat s.aq)
+        by_cases he : s.aq = []
+        · simp [he, flat_nil, total_nil, hoff]
+        · simp [he]
+      · simp only [hp, Bool.false_eq_true, if_false]; exact hoff
+    · exact ⟨hcl, hptx, hdown⟩
+    · have hp : parkedCommit s k = false := by simp [parkedCommit, hptx]
+      split
+      · simp only [flushQ, foldl_flush, flushed, notify, announce]; exact ⟨hcl, hptx, hdown⟩
+      · simp only [hp, Bool.false_eq_true, if_false]; exact ⟨hcl, hptx, hdown⟩
+    · exact hall
+    · have hp : parkedCommit s k = false := by simp [parkedCommit, hptx]
+      split
+      · simp only [flushQ, foldl_flush, flushed, notify, announce]
+        rw [← hall]; simp [allRecs, flat_nil]
+      · simp only [hp, Bool.false_eq_true, if_false]; exact hall
+    · exact hlen
+    · have hp : parkedCommit s k = false := by simp [parkedCommit, hptx]
+      split
+      · simp only [flushQ, foldl_flush, flushed, notify, announce]; exact hlen
+      · simp only [hp, Bool.false_eq_true, if_false]; exact hlen
+
+theorem delivery_rd {A : List Rec} {L : Nat} {s : St} (h : Rd A L s) (op : Op) (hop : isDelivery op = true) :
+    Rd A L (step s op).1 := by
+  cases op with
+  | dApplyBuf m => exact buf_rd h m
+  | dApply n => exact apply_rd h n
+  | dSkip n => exact skip_rd h n
+  | commit k => exact commit_rd h k
+  | _ => simp [isDelivery] at hop
+
+theorem deliveries_rd : ∀ (del : List Op) (A : List Rec) (L : Nat) (s : St), Rd A L s → del.all isDelivery = true →
+    Rd A L (run s del) := by
+  intro del
+  induction del with
+  | nil => intro A L s h _; exact h
+  | cons op t ih =>
+    intro A L s h hd
+    simp only [List.all_cons, Bool.and_eq_true] at hd
+    exact ih A L _ (delivery_rd h op hd.1) hd.2
+
+/-- progress: a payload that contains the first undelivered event completely makes the reader advance -/
+theorem fitCount_pos (m : Nat) (r : Rec) (t : List Rec) (hev : r.isEv = true) (hm : r.ln ≤ m) : 0 < fitCount m (r :: t) := by
+  simp [fitCount, hev, hm]
 
 end SH.Engine
